@@ -156,6 +156,7 @@ func allScenarios(tier string) []*Scenario {
 	addTenants(ss, thorough)
 	addContexts(ss, thorough)
 	addTiming(ss, thorough)
+	addTimingShapes(ss, thorough)
 	addSplitLayer(ss, thorough)
 	addSeqLayer(ss, thorough)
 	addMergeSplitGrid(ss, thorough)
@@ -202,6 +203,16 @@ func addTenants(ss *scenarioSet, thorough bool) {
 	ss.add(Scenario{Name: "D8-empty-vs-absent", QB: 1, TB: 2, Signal: "traces", S: 2, Timeout: T, Early: true, Keys: keys, Limit: 0,
 		Callers: []CallerSpec{{Label: "A", Reqs: one("A", 1), Metadata: md("tenant", "")}, {Label: "B", Reqs: one("B", 1), Metadata: md("other", "x")},
 			{Label: "C", Reqs: one("C", 1)}}})
+	// values that look alike once rendered: the string `["x","y"]` vs the two values x, y; the
+	// string "[]" vs no value at all; "x,y" vs x, y; (any textual encoding of the combination is suspect)
+	for i, pair := range [][2]map[string][]string{{md("tenant", `["x","y"]`), md("tenant", "x", "tenant", "y")}, {md("tenant", "[]"), nil},
+		{md("tenant", "x,y"), md("tenant", "x", "tenant", "y")}, {md("tenant", "a\xffb", "tenant", "c"), md("tenant", "a\xfeb", "tenant", "c")}} {
+		ss.add(Scenario{Name: fmt.Sprintf("D8-lookalike-values/%d", i), QB: 1, TB: 2, Signal: "traces", S: 2, Timeout: T, Early: true, Keys: keys, Limit: 0,
+			Callers: []CallerSpec{{Label: "A", Reqs: one("A", 1), Metadata: pair[0]}, {Label: "B", Reqs: one("B", 1), Metadata: pair[1]}}})
+	}
+	// the same under a limit: each look-alike pair must count as two combinations
+	ss.add(Scenario{Name: "D8-lookalike-limit1", QZero: true, TB: 1, Signal: "traces", S: 2, Timeout: T, Early: true, Keys: keys, Limit: 1,
+		Callers: []CallerSpec{{Label: "C", Reqs: one("C", 1), Metadata: md("tenant", "[]")}, {Label: "D", ArriveAt: T / 4, Reqs: one("D", 1)}}})
 	// two keys, swapped values must not be confused
 	ss.add(Scenario{Name: "D8-two-keys", QB: 1, TB: 2, Signal: "traces", S: 2, Timeout: T, Early: true, Keys: []string{"B", "a"}, Limit: 2,
 		Callers: []CallerSpec{{Label: "A", Reqs: one("A", 1), Metadata: md("a", "x", "b", "y")}, {Label: "B", Reqs: one("B", 1), Metadata: md("a", "y", "b", "x")},
@@ -414,6 +425,55 @@ func addTiming(ss *scenarioSet, thorough bool) {
 			p.Pack = pack.Pack[off:end]
 			p.Bound = 1
 			p.TB = 2
+			ss.add(p)
+		}
+	}
+}
+
+func shapeCfgs(thorough bool) [][3]int {
+	if thorough {
+		return [][3]int{{3, 3, 1}, {2, 3, 1}, {3, 5, 1}, {3, 0, 1}, {4, 4, 1}}
+	}
+	return [][3]int{{3, 3, 1}, {2, 3, 1}, {3, 0, 1}}
+}
+
+func shapeReqs(thorough bool) [][]int {
+	if thorough {
+		return [][]int{{2, 2}, {1, 3}, {3, 1}, {1, 1, 2}, {2}}
+	}
+	return [][]int{{2, 2}, {1, 3}, {1, 1, 2}}
+}
+
+// T9-shapes: the deadline clause for every signal with a small first request and a
+// multi-resource second request that crosses send_batch_size and leaves a remainder
+func addTimingShapes(ss *scenarioSet, thorough bool) {
+	for _, sig := range []string{"traces", "logs", "metrics"} {
+		pack := Scenario{Name: fmt.Sprintf("T9-shapes-%s/%s", tierTag(thorough), sig), Bound: 1, TB: 2}
+		for _, cfg := range shapeCfgs(thorough) {
+			for _, a := range []int{1, 2} {
+				for _, bs := range shapeReqs(thorough) {
+					for _, tb := range []time.Duration{0, T / 2} {
+						var res []ResShape
+						for i, n := range bs {
+							res = append(res, rs(fmt.Sprintf("rB%d", i), scp(sig, fmt.Sprintf("sB%d", i), n)))
+						}
+						sub := Scenario{Name: fmt.Sprintf("%s/S%dM%d/a%d-b%v@%d", pack.Name, cfg[0], cfg[1], a, bs, tb/(T/2)), Signal: sig,
+							S: uint32(cfg[0]), M: uint32(cfg[1]), Timeout: time.Duration(cfg[2]) * T, ShutdownAt: 6 * T, NumCPU: 1,
+							Callers: []CallerSpec{{Label: "A", Reqs: []Shape{simple(sig, "A", a)}}, {Label: "B", ArriveAt: tb, Reqs: []Shape{sh(res...)}}}}
+						pack.Pack = append(pack.Pack, &sub)
+					}
+				}
+			}
+		}
+		const chunk = 20
+		for off := 0; off < len(pack.Pack); off += chunk {
+			end := off + chunk
+			if end > len(pack.Pack) {
+				end = len(pack.Pack)
+			}
+			p := pack
+			p.Name = fmt.Sprintf("%s/part%d", pack.Name, off/chunk)
+			p.Pack = pack.Pack[off:end]
 			ss.add(p)
 		}
 	}
